@@ -10,6 +10,7 @@ import (
 	"path/filepath"
 	"runtime"
 	"sort"
+	"strings"
 	"sync"
 	"sync/atomic"
 	"time"
@@ -31,6 +32,9 @@ type replayFile struct {
 	Request   *request        `json:"request,omitempty"`
 	Observed  *scenarioResult `json:"observed,omitempty"`
 	// violations found in a sequence of presentations against one gateway instance
+	// violations found while exploring the schedules of concurrent handshakes (gosched)
+	Concurrent  *concConfig     `json:"concurrent,omitempty"`
+	Schedule    []int           `json:"schedule_choices,omitempty"`
 	Sequence    *sequence       `json:"sequence,omitempty"`
 	ObservedSeq *sequenceResult `json:"observed_sequence,omitempty"`
 }
@@ -64,6 +68,24 @@ func genScenarios(tier string) []scenario {
 			}
 		}
 	}
+	// chain-answer menu: every kind x chain entry x tenant, single presentation, no background, default
+	// serial x every deviating answer of the query client
+	for _, k := range kinds {
+		entries := []chainEntry{chAbsent, chSameValid, chSameRevoked, chOtherValid, chOtherRevoked}
+		if !cnIsAccount(k) {
+			entries = []chainEntry{chAbsent}
+		}
+		if k == kMultiCNTenantFirst {
+			entries = []chainEntry{chAbsent, chSameValid}
+		}
+		for t := 0; t < 2; t++ {
+			for _, e := range entries {
+				for _, a := range answerMenu {
+					out = append(out, scenario{Kind: k, Tenant: t, Chain: e, Present: prSingle, Serial: "4242", Answer: a})
+				}
+			}
+		}
+	}
 	// no client certificate at all
 	for _, bg := range bgs {
 		out = append(out, scenario{Kind: "none", Tenant: 0, Chain: chAbsent, BgOther: bg[0], BgOwn: bg[1], Present: prNone, Serial: "4242"})
@@ -74,6 +96,7 @@ func genScenarios(tier string) []scenario {
 func main() {
 	tier := flag.String("tier", evlib.Tier(), "quick|thorough")
 	replay := flag.String("replay", "", "replay file")
+	free := flag.Int("free", 0, "supplementary pass for a -race build: run the concurrent-handshake bodies free-running this many rounds per configuration")
 	flag.Parse()
 	sdkutil.InitSDKConfig() // bech32 prefix "akash", as the provider daemon does
 	if raw, err := json.Marshal(dtypes.GroupSpec{Name: "g"}); err == nil {
@@ -83,6 +106,15 @@ func main() {
 	}
 	if *replay != "" {
 		os.Exit(doReplay(*replay))
+	}
+	if *free > 0 {
+		n, err := freeRunConcurrent(*tier, *free)
+		if err != nil {
+			fmt.Fprintln(os.Stderr, "machinery:", err)
+			os.Exit(2)
+		}
+		fmt.Printf("C09 race pass: %d free-running rounds of overlapping VerifyPeerCertificate calls completed\n", n)
+		return // a -race binary exits 66 by itself when the detector reported something
 	}
 	if *tier != "quick" && *tier != "thorough" {
 		fmt.Fprintln(os.Stderr, "usage: c09 -tier quick|thorough | -replay file")
@@ -101,6 +133,29 @@ func doReplay(path string) int {
 	if err := json.Unmarshal(raw, &rf); err != nil {
 		fmt.Fprintln(os.Stderr, "machinery:", err)
 		return 2
+	}
+	if rf.Concurrent != nil {
+		_, found, _, err := runConcurrentConfigs([]concConfig{*rf.Concurrent}, time.Now().Add(10*time.Minute))
+		if err != nil {
+			fmt.Fprintln(os.Stderr, "machinery:", err)
+			return 2
+		}
+		hit := false
+		for sig, f := range found {
+			fmt.Printf("replay: %s: %s\n", sig, f.detail)
+			if sig == rf.Signature {
+				hit = true
+			}
+		}
+		if hit {
+			fmt.Printf("VIOLATION property=%s replay=%s (reproduced %s)\n", prop, path, rf.Signature)
+			return 1
+		}
+		fmt.Printf("replay: %s not reproduced on this tree (%d other violations)\n", rf.Signature, len(found))
+		if len(found) > 0 {
+			return 1
+		}
+		return 0
 	}
 	if rf.Sequence != nil {
 		res, vs, err := runSequence(*rf.Sequence)
@@ -204,6 +259,8 @@ type found struct {
 	obs    *scenarioResult
 	seq    *sequence
 	obsSeq *sequenceResult
+	conc   *concConfig
+	sched  []int
 	count  int64
 }
 
@@ -227,12 +284,34 @@ func run(tier string) int {
 	var machN, stopped, done int32
 	var routes []string
 
+	// concurrent handshakes first: the vs scheduler is process-global and wants the process to itself
+	cstats, cfound, csamples, err := runConcurrent(tier, deadline)
+	if err != nil {
+		fmt.Fprintln(os.Stderr, "machinery:", err)
+		return 2
+	}
+	for sig, f := range cfound {
+		cc := f.cfg
+		bySig[sig] = &found{sig: sig, detail: f.detail, conc: &cc, sched: f.choices, count: f.count}
+	}
+	evals += cstats.Executions
+	tConc := time.Since(start)
+
+	// result of the supplementary free-running -race pass, run by the check script before this binary
+	racePass := os.Getenv("C09_RACE_PASS") // "", "clean <rounds>", "race <log>", "skipped <why>"
+	if strings.HasPrefix(racePass, "race") {
+		bySig["concurrent-handshake:data-race"] = &found{sig: "concurrent-handshake:data-race", count: 1,
+			detail: "the race detector reports unsynchronised access to memory shared between overlapping VerifyPeerCertificate calls (free-running pass; log: " + strings.TrimPrefix(racePass, "race ") + ")",
+			conc:   &concConfig{Present: []presentable{pGenuine, pForged}}}
+	}
+
 	seqs := genSequences(tier)
 	ch := make(chan int, len(scs)+len(seqs))
 	for i := 0; i < len(scs)+len(seqs); i++ {
 		ch <- i
 	}
 	close(ch)
+	var ansScenarios, nilPanics int64
 	var seqDone, seqEvals, seqSteps, seqResumed, timeSteps, timeUnjudged int64
 	var seqSample *sequenceResult
 	workers := runtime.NumCPU()
@@ -334,6 +413,12 @@ func run(tier string) int {
 				atomic.AddInt32(&done, 1)
 				routes = res.Routes
 				sc := scs[i]
+				if sc.Answer != ansReal {
+					ansScenarios++
+					if strings.HasPrefix(res.DirectErr, "panic:") {
+						nilPanics++
+					}
+				}
 				evals++ // the direct callback call
 				directCalls++
 				queries += int64(res.ChainQueries)
@@ -403,7 +488,7 @@ func run(tier string) int {
 		return 2
 	}
 	// seqResumed == 0 is legitimate (a server that issues no session tickets); the count is reported
-	exhaustive := stopped == 0 && int(done) == len(scs) && int(seqDone) == len(seqs)
+	exhaustive := cstats.Exhaustive && stopped == 0 && int(done) == len(scs) && int(seqDone) == len(seqs)
 
 	// samples
 	var samples []interface{}
@@ -443,6 +528,7 @@ func run(tier string) int {
 		mkSample(sampleResults[int(uint64(seed*13+5)%uint64(len(sampleResults)))], func(outcome) bool { return true }, 2)
 	}
 
+	samples = append(samples, csamples...)
 	if seqSample != nil {
 		samples = append(samples, map[string]interface{}{"sequence": seqSample.Sequence.String(), "chain_msgs": seqSample.ChainLog, "steps": seqSample.Steps})
 	}
@@ -468,7 +554,9 @@ func run(tier string) int {
 		}
 		n++
 		rf := replayFile{Property: prop, Tier: tier, Signature: s, Detail: f.detail, Request: f.rq}
-		if f.seq != nil {
+		if f.conc != nil {
+			rf.Concurrent, rf.Schedule = f.conc, f.sched
+		} else if f.seq != nil {
 			rf.Sequence, rf.ObservedSeq = f.seq, f.obsSeq
 		} else {
 			obs := *f.obs
@@ -505,17 +593,24 @@ func run(tier string) int {
 				"x background{other tenant holds the same serial, same owner holds another serial} x presentation{single, leaf+extra} x serial%s + no-certificate scenarios; "+
 				"each scenario = one direct VerifyPeerCertificate call + %d requests over real TLS 1.3 (every route of newRouter found by mux.Walk x dseq{own, other tenant's, non-numeric, uint64 overflow%s} x query{none, owner/provider/dseq naming the other tenant}). "+
 				"SEQUENCES on one gateway instance (one rest.NewServer / TLS config / chain): %d = every ordered pair%s of %d presentables {genuine, genuine other serial, other tenant's genuine, registered-but-expired/server-auth/not-yet-valid, registered self-signed whose issuer field names the other tenant, forgeries copying CN+serial (proper, expired, server-auth, CA-issued, foreign issuer name), forged other serial, unknown serial, forged other tenant, CN no account, no certificate} x op before the second step{none, revoke genuine, revoke other tenant's genuine} x role{A,B}; plus 6 TIME-CROSSING sequences (a registered certificate whose NotAfter / NotBefore lies 3-4 s after the gateway was built is presented at once and again 1.5 s past the boundary; a step is judged only if the clock readings before and after it are on the same side of the boundary by 0.5 s, else counted unconstrained); plus every presentable shown twice by a client that keeps a TLS session cache (so the second connection RESUMES the session) x the same ops and roles; every step = 3 TLS requests + one callback call, judged by the same oracle as in isolation against the chain state at that moment. "+
+				"CHAIN-ANSWER MENU: every kind x chain entry x tenant (single presentation) x the query client answering {error, empty list, two certificates, the right certificate marked revoked, same owner/serial with other bytes, nil response}: every deviating answer must lead to refusal and the server must serve the genuine holder again afterwards. CONCURRENT HANDSHAKES (gosched vs scheduler, unbounded preemptions, no pruning): every unordered pair%s of presentables x {genuine valid, genuine revoked} called concurrently on ONE NewServerTLSConfig instance with scheduling points at the start of each call and before/after the real querier answers; every schedule is explored, each verdict must equal the verdict of the same presentation alone. "+
 				"The chain is the real x/cert keeper written through the real msg server and read through the real gRPC querier; scope is judged against the account that published the certificate (subject CN). "+
 				"A case (scenario, request or callback) is non-trivial when a client certificate is presented and the route is lease/deployment-scoped (the authentication decision matters); distinct = set of canonical JSON encodings. "+
 				"Oracle classes (non-trivial cases): must-accept=%d, must-reject=%d, left-to-implementation=%d; observed reached-provider=%d, refused=%d.",
 				len(scs), map[string]string{"quick": "{4242}", "thorough": "{4242, 1, 2^64+5}"}[tier], len(genRequests(tier, routes, "x")), map[string]string{"quick": "", "thorough": ", -1, 07, 7.0; gseq/oseq{2, x, overflow}"}[tier],
 				len(seqs), map[string]string{"quick": "", "thorough": " and every ordered triple (role A, op{none, revoke genuine} before the second step)"}[tier], len(allPresentables),
+				map[string]string{"quick": "", "thorough": " (and every triple over 6 core presentables)"}[tier],
 				acceptExp, rejectExp, dontCare, acceptObs, rejectObs),
 			Samples:    samples,
 			Exhaustive: exhaustive,
 			Extra: map[string]interface{}{
 				"scenarios":                              len(scs),
 				"sequences":                              len(seqs),
+				"concurrent_handshakes":                  cstats,
+				"concurrent_wall_s":                      tConc.Seconds(),
+				"race_pass":                              racePass,
+				"chain_answer_scenarios":                 ansScenarios,
+				"chain_answer_nil_panics_recovered":      nilPanics,
 				"sequences_run":                          seqDone,
 				"sequence_steps":                         seqSteps,
 				"sequence_connections_resumed":           seqResumed,
@@ -550,6 +645,7 @@ func run(tier string) int {
 		fmt.Fprintln(os.Stderr, "machinery: evidence:", err)
 		return 2
 	}
+	fmt.Printf("C09 %s: concurrent handshakes: configurations=%d schedules=%d transitions=%d distinct outcomes=%d exhaustive=%v wall=%.1fs\n", tier, cstats.Configs, cstats.Executions, cstats.Transitions, cstats.Outcomes, cstats.Exhaustive, tConc.Seconds())
 	fmt.Printf("C09 %s: sequences=%d (steps %d, evaluations %d, resumed TLS connections %d, time-crossing steps %d of which unconstrained %d); ", tier, len(seqs), seqSteps, seqEvals, seqResumed, timeSteps, timeUnjudged)
 	fmt.Printf("scenarios=%[2]d evaluations=%[3]d distinct_nontrivial=%d must-accept=%d must-reject=%d unconstrained=%d observed accept=%d reject=%d exhaustive=%v signatures=%d wall=%.1fs\n",
 		tier, len(scs), evals, len(distinct), acceptExp, rejectExp, dontCare, acceptObs, rejectObs, exhaustive, len(sigs), time.Since(start).Seconds())
